@@ -44,8 +44,17 @@ PubChecks(e) ==
         ELSE IF e.kind = "encode" THEN Flag(e.same, "C17_encoded_public_key_differs_from_documented_format")
         ELSE Flag(e.res = "err", "C17_public_key_with_bad_checksum_or_shape_usable"))
 
+\* C17 on large keyrings in the tool's own layout: accepted, every section an entry, look-ups functional,
+\* keys that were not written are not found
+KrBigChecks(e) ==
+  Flag(~e.panic, "C17_parser_panicked")
+  \cup Flag(e.accepted, "C17_rejected_tool_written_keyring")
+  \cup Flag(e.accepted => e.nentries = e.n, "C17_entries_differ_from_sections_written")
+  \cup Flag(e.accepted => (e.lookups_ok /\ e.misses_ok), "C17_lookup_not_functional")
+
 Checks(e) ==
   CASE e.ev = "kr"   -> KrChecks(e)
+    [] e.ev = "krbig" -> KrBigChecks(e)
     [] e.ev = "lock" -> LockChecks(e)
     [] e.ev = "pub"  -> PubChecks(e)
     [] OTHER         -> {<<l, "TOOL_unknown_event">>}
